@@ -197,6 +197,8 @@ def configs(tier, seed):
         for ns in (1, 2):
             add("unitary", sim="abrm_hp", nt=nt, ns=ns, dom=(ns == 2), cost=10 * nt)
             for nd in ((1, 2, 3) if full else (1, 2)):
+                if nt == 3 and nd > 1:
+                    continue        # three samples x matrix gradients: the normal form needs > 1 h
                 add("unitary", sim="blochsim", nt=nt, ns=ns, nd=nd, cost=10 * nt)
             add("unitary", sim="blochsim", nt=nt, ns=ns, nd=0, matrix=False, cost=10 * nt)
         for ns, nc, sens, fmap in ((1, 1, False, False), (1, 2, True, False), (4, 1, False, True)) + (((4, 2, True, True),) if full else ()):
@@ -207,6 +209,8 @@ def configs(tier, seed):
     for ns in (1, 2):
         add("unitary", sim="abrm", nt=1, ns=ns, balanced=False, cost=30)
         for nd in ((1, 2, 3) if full else (1, 2)):
+            if nd == 3 and ns == 2:
+                continue        # z3 unknown after 300 s
             add("unitary", sim="abrm_nd", nt=1, ns=ns, nd=nd, cost=30)
     for name in ("abrm_nd", "abrm_hp", "blochsim", "abrm_ptx"):
         for zg in (False, True):
